@@ -178,6 +178,29 @@ def run_generic(ctx, rep, rule, fn, select=None, configs=CONFIGS, memo_key=None,
     return n
 
 
+def run_dbgfx(ctx, rep, select=None, floor=None):
+    """DBGFX (rules/profile.py): the side effects of the selected functions (and of their closures) are the same with debug
+    assertions on and off - nothing mutating sits inside debug_assert!/cfg!(debug_assertions)"""
+    from . import profile
+    res = ctx.memo("dbgfx", lambda: profile.debug_only_effects(ctx.crate("dbg"), ctx.crate("rel")))
+    bypath = ctx.memo("dbgfx-paths", lambda: {b.path: b for b in ctx.crate("dbg").bodies})
+    n = 0
+    for b, key, v, msg in res:
+        owner = b
+        while owner is not None and owner.kind == "Closure":
+            owner = bypath.get(owner.parent)
+        if select and (owner is None or not select(owner, key)):
+            continue
+        n += 1
+        if v == "pass":
+            rep.ok("DBGFX", key, msg, _where(b), nontrivial=False)
+        else:
+            rep.violation("DBGFX", key, msg, _where(b))
+    if floor is not None:
+        rep.floor("functions with side effects compared across build profiles (DBGFX)", n, floor)
+    return n
+
+
 def run_defs(ctx, rep, *frags, floor=None):
     """definitional functions/constants the property's other rules rely on (DEFS), selected by key fragment"""
     n = run_generic(ctx, rep, "DEFS", defs.check, select=lambda b, k: not frags or any(f in k for f in frags), memo_key="defs")
@@ -424,7 +447,7 @@ def new_into_inner(crate):
         if b.trait is None and b.self_family in ("Bvf", "Bvd") and b.name in ("new", "into_inner"):
             ret = b.return_expr()
             if b.name == "new":
-                ok = ret[0] == "agg" and ret[3] == (("param", "data"), ("param", "length"))
+                ok = ret[0] == "agg" and ret[3] == (("param", b.local_name(1)), ("param", b.local_name(2)))
                 out.append((b, "%s|identity" % b.key, "pass" if ok else "violation",
                             "new(data, length) = {data, length} field-wise" if ok else "new builds %s" % mir.show(ret)))
             else:
@@ -439,8 +462,8 @@ def write_is_to_vec(crate):
     for b in crate.bodies:
         if b.trait == "BitVector" and b.name == "write" and b.self_family in ("Bvf", "Bvd"):
             ret = b.return_expr()
-            ok = mir.is_call(ret, "write_all") and ret[3][0] == ("param", "writer") and mir.contains(
-                ret[3][1], lambda x: mir.is_call(x, "to_vec") and x[3] == (("param", "self"), ("param", "endianness")))
+            ok = mir.is_call(ret, "write_all") and ret[3][0] == ("param", b.local_name(2)) and mir.contains(
+                ret[3][1], lambda x: mir.is_call(x, "to_vec") and x[3] == (("param", "self"), ("param", b.local_name(3))))
             out.append((b, "%s|write = write_all(to_vec)" % b.key, "pass" if ok else "violation",
                         "returns writer.write_all(self.to_vec(endianness))" if ok else "write returns %s" % mir.show(ret)[:100]))
     return out
@@ -458,21 +481,51 @@ def receiver_shared(crate, names):
 
 
 def debug_index_checks(crate):
-    """with debug assertions on, get/set/copy_range carry an index assertion"""
+    """with debug assertions on, get/set/copy_range check their index against the length *before anything else can
+    return*: for each required relation (get/set: index < len; copy_range: start <= len and end <= len) there is a
+    branch whose failing edge diverges (panic) and whose passing edge dominates every return of the function.
+    Parameters are identified by position (the first argument after self), not by name."""
     out = []
     if not crate.debug_assertions:
         return out
+
+    def is_len(e):
+        return e == f2.SELF_LEN or (mir.is_call(e, "len") and e[3] == (("param", "self"),))
+
     for b in crate.bodies:
-        if b.trait == "BitVector" and b.name in ("get", "set", "copy_range") and b.self_family in ("Bvf", "Bvd"):
-            has = bool(b.const_bool_locals())
-            idx = False
-            for sb, cond, ts, fs in guard.cond_edges(b):
-                if mir.contains(cond, lambda x: x in (("param", "index"), ("field", ("param", "range"), "start"), ("field", ("param", "range"), "end"))) \
-                        and mir.contains(cond, lambda x: x == f2.SELF_LEN or mir.is_call(x, "len")):
-                    idx = True
-            ok = has and idx
-            out.append((b, "%s|debug index check" % b.key, "pass" if ok else "violation",
-                        "debug_assert! compares the index with the length" if ok else "no debug-build index assertion found"))
+        if not (b.trait == "BitVector" and b.name in ("get", "set", "copy_range") and b.self_family in ("Bvf", "Bvd")):
+            continue
+        p = ("param", b.local_name(2))
+        if b.name == "copy_range":
+            wanted = [("Le", ("field", p, "start")), ("Le", ("field", p, "end"))]
+        else:
+            wanted = [("Lt", p)]
+        rets = b.return_blocks()
+        edges = guard.cond_edges(b)
+        probs = []
+        for op, lhs in wanted:
+            found = None
+            for sb, cond, ts, fs in edges:
+                for taken, succ, other in ((True, ts, fs), (False, fs, ts)):
+                    rels = guard.relations_on_edge(cond, taken)
+                    if not any(r[0] == op and r[1] == lhs and is_len(r[2]) for r in rels):
+                        continue
+                    diverges = not [x for x in b.reach_avoiding([other]) if b.term(x)["t"] == "ret"]
+                    # `a && b` lowers to two branches sharing the failing block; the failing successor may first join
+                    dominated = all(b.edge_dominates((sb, succ), r) for r in rets)
+                    if diverges and dominated:
+                        found = "ok"
+                    elif found is None:
+                        found = ("the failing edge of `%s` does not panic" % mir.show(cond)) if not diverges else \
+                            ("a return is reachable without passing the check `%s` (early return before the assertion)" % mir.show(cond))
+            if found is None:
+                probs.append("no debug-build check %s %s len" % (mir.show(lhs), "<" if op == "Lt" else "<="))
+            elif found != "ok":
+                probs.append(found)
+        ok = not probs
+        out.append((b, "%s|debug index check" % b.key, "pass" if ok else "violation",
+                    "debug_assert! compares the index with the length, panics on failure and precedes every return" if ok
+                    else "; ".join(dict.fromkeys(probs))))
     return out
 
 
@@ -511,7 +564,7 @@ def bv_to_bvp_guards(crate):
                     if cfn and cfn["name"] == "reserve" and b.e_operand(ct["args"][0]) == ("param", "self"):
                         for sb, cond, taken, succ, other in guard.edges_dominating(b, cb):
                             for op, l, r in guard.relations_on_edge(cond, taken):
-                                if op == "Gt" and l == ("param", "new_len") and mir.is_call(r, "len"):
+                                if op == "Gt" and l == ("param", b.local_name(2)) and mir.is_call(r, "len"):
                                     if not b.reach_avoiding([succ], avoid_blocks=[cb]) & {bb} or True:
                                         ok = "reserve(new_len - len) on the growing path (new_len > len); the other path does not grow"
             out.append((b, key, "pass" if ok else "violation",
@@ -539,7 +592,7 @@ def bv_reserve_shape(crate):
         ok = False
         for sb, cond, ts, fs in guard.cond_edges(b):
             if mir.is_bin(cond, "Gt") and guard.is_capacity_call(cond[3]) and mir.is_bin(cond[2], "Add") \
-                    and mir.is_call(cond[2][2], "len") and cond[2][3] == ("param", "additional"):
+                    and mir.is_call(cond[2][2], "len") and cond[2][3] == ("param", b.local_name(2)):
                 # promotion (aggregate Bv::Dynamic) on the true edge only
                 reach_t = b.reach_avoiding([ts])
                 dyn = [bb for bb, i, st in b.iter_stmts() if st["s"] == "assign" and st["r"]["k"] == "agg" and st["r"].get("variant") == "Dynamic"]
@@ -550,7 +603,7 @@ def bv_reserve_shape(crate):
         # every reserve() issued by Bv::reserve passes `additional` unchanged: the promoted Bvd has the same length
         # as the inline vector, so reserve(additional) is what makes capacity >= len + additional
         rs = [e for e in storage.events(b) if e.kind == "mcall" and e.name == "reserve"]
-        okr = len(rs) == 2 and all(e.args[1] == ("param", "additional") for e in rs)
+        okr = len(rs) == 2 and all(e.args[1] == ("param", b.local_name(2)) for e in rs)
         if okr:
             for e in rs:
                 o = e.args[0]
@@ -581,6 +634,23 @@ def bv_reserve_shape(crate):
             out.append((x, "%s|mode predicate" % x.key, "pass" if ok else "violation",
                         "inline storage exactly when the requested length <= Bvp::capacity()" if ok else "mode predicate not recognised"))
     for x in crate.bodies:
+        # with_capacity(c): the dynamic storage is sized from c itself, so capacity() >= c
+        if x.trait == "BitVector" and x.name == "with_capacity" and x.self_family == "Bvd":
+            c = ("param", x.local_name(1))
+            allocs = [x.e_call(t) for bb, t, fn in x.iter_calls() if fn and fn["name"] in ("take", "with_capacity", "from_elem")]
+            ok = len(allocs) == 1 and len(allocs[0][3]) >= 1 and mask.cap_arg(allocs[0][3][-1]) == c
+            out.append((x, "%s|allocation slot" % x.key, "pass" if ok else "violation",
+                        "allocates capacity_from_bit_len(%s) words" % c[1] if ok else
+                        "allocates %s - expected capacity_from_bit_len(%s) words so that capacity() >= %s" % ([mir.show(a) for a in allocs], c[1], c[1])))
+        if x.trait == "BitVector" and x.name == "with_capacity" and x.self_family == "Bv":
+            c = ("param", x.local_name(1))
+            inner = [x.e_call(t) for bb, t, fn in x.iter_calls() if fn and fn["name"] == "with_capacity"]
+            dyn = [e for e in inner if "Bvd" in (e[2] or "")]
+            ok = len(dyn) == 1 and tuple(dyn[0][3]) == (c,)
+            out.append((x, "%s|heap arm request" % x.key, "pass" if ok else "violation",
+                        "the heap arm requests Bvd::with_capacity(%s) unchanged" % c[1] if ok else
+                        "the heap arm requests %s" % [mir.show(e) for e in dyn]))
+    for x in crate.bodies:
         if x.key in ("Bvd::reserve", "Bvd::shrink_to_fit"):
             # allocation slots (followed one call deep into a private helper of Bvd, with its parameters substituted)
             allocs = [x.e_call(t) for bb, t, fn in x.iter_calls() if fn and fn["name"] == "take"]
@@ -595,7 +665,7 @@ def bv_reserve_shape(crate):
                         for cb, ct, cfn in callee.iter_calls():
                             if cfn and cfn["name"] == "take":
                                 allocs.append(_subst(callee.e_call(ct), mapping))
-            want = ("bin", "Add", f2.SELF_LEN, ("param", "additional")) if x.name == "reserve" else f2.SELF_LEN
+            want = ("bin", "Add", f2.SELF_LEN, ("param", x.local_name(2))) if x.name == "reserve" else f2.SELF_LEN
             ok = len(allocs) == 1 and mask.cap_arg(allocs[0][3][1]) == want
             out.append((x, "%s|allocation slot" % x.key, "pass" if ok else "violation",
                         "allocates capacity_from_bit_len(%s) words" % mir.show(want) if ok else "allocates %s" % [mir.show(a) for a in allocs]))
@@ -626,6 +696,7 @@ def check_c03(ctx, rep, tier):
     n = run_generic(ctx, rep, "FMT", f2.fmt_facts)
     rep.floor("formatting observers (prefix constants, sibling digit extraction)", n, 14)
     run_defs(ctx, rep, floor=51)
+    run_dbgfx(ctx, rep, floor=600)    # crate-wide; ~733 functions with at least one effect on the reviewed tree
     rep.notes.append("FMT / stretch-SIB instances on rotl/rotr, bit counts and formatting are supporting facts for the "
                      "not-applicable properties C06, C16, C14: they are observers/operations C03 quantifies over, and a drift "
                      "of one hand-written copy is reported here; their value-level content is not decided")
@@ -661,6 +732,7 @@ def check_c01(ctx, rep, tier):
     rep.floor("word primitive copies compared (SIB)", n, 32)
     n = run_generic(ctx, rep, "PROFILE", checked_arith, trusted_rule="PROFILE-TABLE")
     rep.floor("overflow-checked arithmetic sites in kernels (PROFILE)", n, 27)
+    run_dbgfx(ctx, rep, lambda b, k: b.trait in ("Add", "Sub", "Mul", "AddAssign", "SubAssign", "MulAssign") or b.name in ("cadd", "csub", "wmul", "mod2n"))
     counts = run_fwd(ctx, rep, ops=("Add", "Sub", "Mul"))
     _fwd_floor(rep, counts, "+ - *", 350, 12)
     n = run_generic(ctx, rep, "UNWRAP", unwrap.sites, configs=("dbg",),
@@ -685,6 +757,7 @@ def check_c02(ctx, rep, tier):
     rep.floor("div_rem result shapes", n, 3)
     n = run_generic(ctx, rep, "SIB", f2.div_rem_siblings)
     rep.floor("div_rem sibling comparisons", n, 2)
+    run_dbgfx(ctx, rep, lambda b, k: b.trait in ("Div", "Rem", "DivAssign", "RemAssign") or b.name == "div_rem")
     run_defs(ctx, rep, "significant_bits", "is_empty", floor=2)
     rep.not_decided += ["q*b + r = a and r < b (values of the shift-subtract loop)"]
 
@@ -704,6 +777,7 @@ def check_c04(ctx, rep, tier):
                     select=lambda b, k: b.trait in ("BitAnd", "BitOr", "BitXor", "BitAndAssign", "BitOrAssign", "BitXorAssign"))
     rep.floor("integer-lifting unwraps in & | ^ forms", n, 39)
     run_generic(ctx, rep, "LEN", f2.length_effects, select=lambda b, k: b.trait in BIT_KERNEL_TRAITS)
+    run_dbgfx(ctx, rep, lambda b, k: b.trait in BIT_KERNEL_TRAITS + ("BitAnd", "BitOr", "BitXor"))
     run_defs(ctx, rep, "BIT_UNIT", "get_int", "int_len", "capacity_from_bit_len", "ZERO", floor=14)
     rep.not_decided += ["alignment of rhs words across different word sizes (get_int re-chunking, value-level)"]
 
@@ -723,6 +797,7 @@ def check_c05(ctx, rep, tier):
                 select=lambda b, k: b.name in ("shl_in", "shr_in") or b.trait in SHIFT_TRAITS)
     n = run_generic(ctx, rep, "RET", shl_in_return)
     rep.floor("shl_in/shr_in implementations", n, 4)
+    run_dbgfx(ctx, rep, lambda b, k: b.trait in SHIFT_TRAITS or b.name in ("shl_in", "shr_in"))
     run_mask(ctx, rep, select=lambda w: w.body.name in ("shl_in", "shr_in") or w.body.trait in SHIFT_TRAITS)
     rep.not_decided += ["chunk arithmetic of the shift kernels (zero fill, bit i-k lands at i): value-level"]
 
@@ -745,6 +820,7 @@ def check_c07(ctx, rep, tier):
     rep.floor("edit compositions", n, 16)
     run_mask(ctx, rep, select=lambda w: w.body.name in EDIT_FNS)
     run_shrink(ctx, rep, select=lambda b: b.name in EDIT_FNS)
+    run_dbgfx(ctx, rep, lambda b, k: b.name in EDIT_FNS + ("reserve", "set_int"))
     rep.not_decided += ["the spliced bit values in append/prepend (byte/word granular shifting)"]
 
 
@@ -758,10 +834,11 @@ def check_c08(ctx, rep, tier):
     n = run_generic(ctx, rep, "ORDER", f2.trait_defaults, select=lambda b, k: any(x in k for x in ("split_off", "split", "first", "last", "is_empty")))
     rep.floor("split/first/last compositions", n, 9)
     run_generic(ctx, rep, "UNWRAP", unwrap.sites, configs=("dbg",), select=lambda b, k: b.name == "copy_range")
-    run_generic(ctx, rep, "DECR", arith.decr_sites, configs=("dbg",), select=lambda b, k: b.name in ("copy_range", "last", "first", "split_off"))
+    run_generic(ctx, rep, "DECR", arith.decr_sites, configs=("dbg",), select=lambda b, k: b.name in ("copy_range", "last", "first", "split_off") and not (b.self_ty or "").startswith("BitIterator"))
     run_generic(ctx, rep, "DISPATCH", lambda c: [(b, b.key, "violation" if v == "violation" else "pass", m) for b, v, m in dispatch.analyse(c)],
                 select=lambda b, k: b.name in ("copy_range", "len", "get", "is_empty", "resize"), memo_key="dispatch")
     run_defs(ctx, rep, "is_empty", "::len", floor=3)
+    run_dbgfx(ctx, rep, lambda b, k: b.name in ("copy_range", "split_off", "split", "first", "last"))
     rep.not_decided += ["the offset/slide word copy itself (value-level)"]
 
 
@@ -785,6 +862,7 @@ def check_c10(ctx, rep, tier):
     n = run_generic(ctx, rep, "HASH", cmp.hash_taint)
     rep.floor("hash sinks / loop bounds / mode checks", n, 7)
     run_generic(ctx, rep, "UNWRAP", unwrap.sites, configs=("dbg",), select=lambda b, k: b.name == "hash")
+    run_dbgfx(ctx, rep, lambda b, k: b.name == "hash")
     # Hash for Bvf/Bvd feeds raw storage words: it is in the reliance set of the padding invariant, so the writer
     # discipline (every writer re-establishes zero padding) is a premise of this property
     counts = run_mask(ctx, rep, select=lambda w: w.klass != "CTOR")   # the trusted constructors are C03's known finding F11
@@ -799,6 +877,14 @@ def _is_int_conv(b, k):
         return False
     a = b.trait_args[0] if b.trait_args else ""
     return (b.self_ty in f2.WORD_TYPES + ("Bit", "bool")) or a.lstrip("&") in f2.WORD_TYPES + ("Bit", "bool") or a.startswith("&[")
+
+
+def _is_vec_to_int(b):
+    """TryFrom<vector> for uN (by value or by reference): the conversions C11 says never panic"""
+    if b.trait not in ("TryFrom", "From") or b.self_ty not in f2.WORD_TYPES:
+        return False
+    a = b.trait_args[0] if b.trait_args else ""
+    return mir.ty_family(a.lstrip("&")) in ("Bvf", "Bvd", "Bv")
 
 
 def bv_to_int_dispatch(crate):
@@ -878,6 +964,9 @@ def check_c11(ctx, rep, tier):
     rep.floor("Bv -> integer dispatchers", n, 6)
     run_generic(ctx, rep, "GUARD-CAP", guard.capacity_guards, select=_is_int_conv, trusted_rule="GUARD-CAP-TABLE")
     run_mask(ctx, rep, select=lambda w: _is_int_conv(w.body, ""))
+    run_dbgfx(ctx, rep, _is_int_conv)
+    n = run_generic(ctx, rep, "NOPANIC", lambda c: arith.nopanic_sites(c, _is_vec_to_int), memo_key="nopanic_c11")
+    rep.floor("vector -> integer conversions checked for panic sites (NOPANIC)", n, 30)
     rep.not_decided += ["word values produced by the conversions"]
 
 
@@ -903,6 +992,7 @@ def check_c12(ctx, rep, tier):
     rep.floor("new/into_inner", n, 4)
     n = run_generic(ctx, rep, "DISPATCH", bv_source_dispatch)
     rep.floor("conversions dispatching on a Bv source", n, 3)
+    run_dbgfx(ctx, rep, _is_impl_conv)
     if tier == "thorough":
         _matrix(ctx, rep, ("conv",))
     run_defs(ctx, rep, "get_int", "int_len", "::len", "capacity", floor=12)
@@ -931,6 +1021,7 @@ def check_c13(ctx, rep, tier):
     run_generic(ctx, rep, "DISPATCH", lambda c: [(b, b.key, "violation" if v == "violation" else "pass", m) for b, v, m in dispatch.analyse(c)],
                 select=lambda b, k: b.name in SER_FNS, memo_key="dispatch")
     run_generic(ctx, rep, "GUARD-BVP", bv_to_bvp_guards, select=lambda b, k: b.name in SER_FNS)
+    run_dbgfx(ctx, rep, lambda b, k: b.name in SER_FNS)
     rep.not_decided += ["byte packing order and values (value-level)"]
 
 
@@ -948,18 +1039,16 @@ def check_c15(ctx, rep, tier):
     run_generic(ctx, rep, "DECR", arith.decr_sites, configs=("dbg",), select=lambda b, k: b.name in PARSE_FNS, trusted_rule="DECR-TABLE")
     run_generic(ctx, rep, "GUARD-CAP", guard.capacity_guards, select=lambda b, k: b.name in PARSE_FNS)
     run_generic(ctx, rep, "GUARD-BVP", bv_to_bvp_guards, select=lambda b, k: b.name in PARSE_FNS)
+    run_dbgfx(ctx, rep, lambda b, k: b.name in PARSE_FNS)
     rep.not_decided += ["digit placement inside the words", "parsing inverts formatting (needs the value of both)"]
 
 
 def check_c17(ctx, rep, tier):
-    n = run_generic(ctx, rep, "OVF", arith.ovf_iterator, configs=("dbg",))
-    rep.floor("checked arithmetic sites in BitIterator", n, 5)
-    n = run_generic(ctx, rep, "INV", arith.iterator_invariant)
-    rep.floor("iterator range updates", n, 6)
-    n = run_generic(ctx, rep, "CONST", f2.iterator_consts)
-    rep.floor("iterator constants/indices", n, 8)
-    run_generic(ctx, rep, "DECR", arith.decr_sites, configs=("dbg",), select=lambda b, k: (b.self_ty or "").startswith("BitIterator"),
-                trusted_rule="DECR-TABLE")
+    from . import iterspec
+    n = run_generic(ctx, rep, "ITER", iterspec.check, memo_key="iterspec")
+    # 4 mandatory definitions (next, next_back, size_hint, new) + their 4 contracts; count/last/nth/nth_back are optional
+    # overrides (the Iterator defaults built on next/next_back satisfy the contract) and are checked when present
+    rep.floor("iterator contract instances (ITER)", n, 8)
     run_generic(ctx, rep, "SAFE", f2.safe_facts, select=lambda b, k: "BitIterator" in k or "fields" in k or "Integer sealed" in k)
     # IntoIterator for &T == BitIterator::new(self)
     def into_iter(c):
@@ -976,6 +1065,7 @@ def check_c17(ctx, rep, tier):
         return out
     n = run_generic(ctx, rep, "FWD-ITER", into_iter, memo_key="into_iter")
     rep.floor("iter/into_iter forwarders", n, 6)
+    run_dbgfx(ctx, rep, lambda b, k: (b.self_ty or "").startswith("BitIterator"))
     rep.not_decided += ["equivalence with slice::Iter for in-range arguments beyond the index expressions checked here"]
 
 
@@ -986,13 +1076,14 @@ def check_c18(ctx, rep, tier):
     n = run_generic(ctx, rep, "GUARD-BVP", bv_to_bvp_guards)
     rep.floor("Bv -> inline operation calls", n, 11)
     n = run_generic(ctx, rep, "SIB-CAP", bv_reserve_shape)
-    rep.floor("capacity slots / mode predicates", n, 7)
+    rep.floor("capacity slots / mode predicates", n, 9)
     run_generic(ctx, rep, "LEN", f2.length_effects, select=lambda b, k: b.name in ("reserve", "shrink_to_fit", "with_capacity"))
     run_mask(ctx, rep, select=lambda w: w.body.name in ("reserve", "shrink_to_fit", "with_capacity"))
     run_generic(ctx, rep, "UNWRAP", unwrap.sites, configs=("dbg",),
                 select=lambda b, k: b.self_family == "Bv" and b.name in ("shrink_to_fit", "copy_range", "from"))
     run_dispatch(ctx, rep)
     run_defs(ctx, rep, "capacity", "::len", floor=8)
+    run_dbgfx(ctx, rep, lambda b, k: b.name in ("reserve", "shrink_to_fit", "with_capacity", "new") + EDIT_FNS)
     rep.not_decided += ["allocator behaviour (capacity() after reserve may exceed the request)"]
 
 
@@ -1012,6 +1103,7 @@ def check_c19(ctx, rep, tier):
                             "length growth goes through the guarded resize" if ok else "does not call resize"))
         return out
     run_generic(ctx, rep, "REACH", reach, memo_key="c19reach")
+    run_dbgfx(ctx, rep, lambda b, k: b.self_family in ("Bvf", "Bv") and b.name in EDIT_FNS + SER_FNS + PARSE_FNS + ("zeros", "ones", "new", "try_from", "from", "copy_range", "split_off"))
     run_generic(ctx, rep, "ORDER", f2.trait_defaults, select=lambda b, k: any(x in k for x in ("insert", "sign_extend", "Extend", "FromIterator")))
     run_defs(ctx, rep, "capacity", "::len", "BIT_UNIT", floor=10)
 
@@ -1025,6 +1117,7 @@ def check_c20(ctx, rep, tier):
     rep.floor("separately written by-reference twins", n, 13)
     n = run_generic(ctx, rep, "SAFE", f2.safe_facts)
     rep.floor("type-system facts (SAFE)", n, 11)
+    run_dbgfx(ctx, rep, lambda b, k: b.trait in fwd.OP_TRAITS)
     if tier == "thorough":
         _matrix(ctx, rep, ("ops",))
     rep.not_decided += ["agreement of the hand-written twins beyond slot equality", "the kernels' values"]
